@@ -124,9 +124,18 @@ def runTop (args : List String) : Option String :=
       | none => if f.det = 0 then .error .valueError else .ok (1, 1)
     let isGbx := ¬ (src.isGeoBox ∧ dst.isGeoBox ∧ eq)
     if mode = "rois" then
-      let r := computeReprojectRoiE src dst eq pf pb (nLin.getD 1)
-        (fun c => match scaleE c with | .ok _ => .ok (1, 1) | .error e => .error e) ttol stol pad al
-      pure (fmtRes fmtRois r)
+      -- generic branch with both transforms callable: the NaN-aware plan (non-finite stencil images)
+      let scaleX : Rat × Rat → ScaleRes := fun c =>
+        match scaleAtPointX back c (fun pt => (rootOf (stencilAffine backR pt 1)).getD 1) with
+        | .ok _ => .ok (1, 1)
+        | o => o
+      match nativePixTransform src dst eq pf pb with
+      | .ok (.gbx (.ok fwd') (.ok back')) =>
+        pure (fmtRes fmtRois (reprojectNonlinearX scaleFallback src.shape dst.shape back' fwd' scaleX pad al))
+      | _ =>
+        let r := computeReprojectRoiE src dst eq pf pb (nLin.getD 1)
+          (fun c => match scaleE c with | .ok _ => .ok (1, 1) | .error e => .error e) ttol stol pad al
+        pure (fmtRes fmtRois r)
     else
       match nLin with
       | none => pure "irr"
